@@ -126,6 +126,51 @@ def check(ctx):
         ctx.ob("shape", ct, "recursive merge", True, "merge is not self-recursive: precedence clauses not evaluated for this shape (purity still is)",
                nontrivial=False)
         ctx.note("combine_trees is not self-recursive: C18.2 precedence clauses skipped")
+    # the other common spelling: plain dict.update semantics first, recursive fix-ups of the shared sub-trees afterwards
+    #     ret = {**base, **child};  ret.update((k, self.combine_trees(base[k], child[k])) for k in <keys where both are maps>)
+    merge_first = None
+    for r in rets:
+        for k_, pl in (value_sources(ct, r.ast.value, r) if isinstance(r.ast.value, ast.Name) else [("expr", r.ast.value)]):
+            if k_ == "expr" and isinstance(pl, ast.Dict) and len(pl.keys) == 2 and all(x is None for x in pl.keys):
+                merge_first = pl
+    if merge_first is not None and not any(isinstance(x, (ast.For, ast.While)) for x in ast.walk(ct.node)):
+        first, second = merge_first.values
+        okw = isinstance(first, ast.Name) and first.id == bparam and isinstance(second, ast.Name) and second.id == cparam
+        ctx.ob("included-wins", ct, merge_first, okw, "{**base, **child}: the included tree's values replace the including document's" if okw else
+               "the trees are merged in the wrong order: the including document wins", node=None)
+        fix = [x for x in ast.walk(ct.node) if isinstance(x, (ast.GeneratorExp, ast.ListComp, ast.DictComp)) and any(
+            isinstance(y, ast.Call) and g.nodes_for(y) and ct in an.callees(ct, g.nodes_for(y)[0]) for y in ast.walk(x.elt if not isinstance(x, ast.DictComp) else x.value))]
+        ctx.ob("recursion.exists", ct, "nested maps merge recursively", bool(fix), "map/map conflicts are merged recursively" if fix else
+               "nested maps are replaced wholesale instead of merged")
+        for x in fix:
+            rec = [y for y in ast.walk(x) if isinstance(y, ast.Call) and g.nodes_for(y) and ct in an.callees(ct, g.nodes_for(y)[0])][0]
+            a = rec.args
+            keyv = x.generators[0].target
+            def idx(e, root):
+                return isinstance(e, ast.Subscript) and isinstance(e.value, ast.Name) and e.value.id == root and isinstance(e.slice, ast.Name) \
+                    and isinstance(keyv, ast.Name) and e.slice.id == keyv.id
+            ok = len(a) == 2 and idx(a[0], bparam) and idx(a[1], cparam)
+            ctx.ob("recursion.argument-order", ct, rec, ok, "recurses with (base value, included value)" if ok else
+                   "the recursive merge swaps or replaces its arguments: nested included values lose")
+            # keys restricted to those where both sides hold a map
+            conds = [c for gen in ast.walk(x) if isinstance(gen, ast.comprehension) for c in gen.ifs]
+            flat = []
+            for c in conds:
+                flat += c.values if isinstance(c, ast.BoolOp) and isinstance(c.op, ast.And) else [c]
+            dict_tests = [c for c in flat if isinstance(c, ast.Call) and ast.unparse(c.func) == "isinstance" and len(c.args) == 2 and "dict" in ast.unparse(c.args[1])]
+            ctx.ob("recursion.only-for-two-maps", ct, rec, len(dict_tests) >= 2, "recursion only when both sides are maps" if len(dict_tests) >= 2 else
+                   "recursion is not restricted to map/map conflicts")
+            # stored under the same key, into the returned copy
+            stored = isinstance(getattr(x, "_parent", None), ast.Call) and isinstance(x._parent.func, ast.Attribute) and x._parent.func.attr == "update"
+            elt = x.elt if not isinstance(x, ast.DictComp) else ast.Tuple(elts=[x.key, x.value], ctx=ast.Load())
+            samek = isinstance(elt, ast.Tuple) and len(elt.elts) == 2 and isinstance(elt.elts[0], ast.Name) and isinstance(keyv, ast.Name) and elt.elts[0].id == keyv.id
+            ctx.ob("same-key", ct, x, bool(stored or isinstance(x, ast.DictComp)) and samek, "stored under the visited key" if samek else "stored under a different key")
+        recursive_shape = False
+    elif recursive_shape and not any(isinstance(x, ast.For) for x in ast.walk(ct.node)):
+        ctx.ob("shape", ct, "recursive merge", True, "merge written in a shape the precedence clauses do not read (no loop over the included tree, no "
+               "{**base, **child}): precedence not decided for this spelling (purity still is)", nontrivial=False)
+        ctx.note("combine_trees: unrecognised merge shape, C18.2 precedence clauses skipped")
+        recursive_shape = False
     if recursive_shape:
         ret_names = {r.ast.value.id for r in rets if isinstance(r.ast.value, ast.Name)}
         stores = [n for n in g.nodes if n.kind == "assign" and isinstance(n.ast, ast.Assign) and any(
